@@ -180,14 +180,8 @@ int vp_case(Choice& c, Report& rep) {
     int skip_lo = 0, skip_hi = 0;
     if (transition_possible && g != 0) {
       n_trans++;
-      if (rep.exclude("F19")) {
-        if (tiny_frame) { skip_lo = 0; skip_hi = fs * chD; }
-        else {
-          int spf = opus_packet_get_samples_per_frame(dptr, FsD);
-          int off = fecflag && fs > spf ? fs - spf : 0;
-          skip_lo = off * chD; skip_hi = (off + FsD / 200) * chD;
-        }
-      }
+      // fixed finding F19 (decoder gain applied twice at mode transitions): no samples are skipped any more
+      rep.label("gain:mode-class-may-change");
     }
 
     HeapBuf<float> oa((size_t)fs * chD), ob((size_t)fs * chD);
@@ -282,7 +276,7 @@ int vp_case(Choice& c, Report& rep) {
       float x = 8388608.f * ob[s];
       if (x >= 2147483648.f) {
         n_big24++;
-        if (rep.exclude("F5")) { n_f5++; continue; }
+        n_f5++;   // fixed finding F5 class (value beyond the 32-bit range): saturation is asserted
         VP_REQUIRE(od[s] >= 2147483520, "c19:decode24-wraps", "packet %zu (%s) gain %d sample %d: float output %.9g (x 2^23 = %.9g, above the 32-bit range) converted to %d instead of saturating", i, what, g, s, ob[s], x, od[s]);
       } else if (x <= -2147483648.f) {
         n_big24++;
